@@ -3,6 +3,7 @@
    requests sent to mi_os_prim_free); the allocation side is MiVerif/Model/Os.lean (compared with the real functions
    through the OS shim).  Page size `ps` is any power of two 4 KiB .. 64 KiB. -/
 import MiVerif.Model.Os
+import MiVerif.Lemmas.OsAlign
 import MiVerif.Lemmas.C16
 
 namespace C11
@@ -60,5 +61,42 @@ theorem free_fallback_size (ps addr size : Nat) (ha : addr ≠ 0) (hs : GenO._mi
 
 -- non-vacuity: a 100 MiB block at a concrete address
 example : osFreeRequests 4096 0x7f0000000000 104857600 (osAlloc 4096 0x7f0000000000 104857600).memid = [(0x7f0000000000, 104857600)] := by decide
+
+/-- **the over-allocate-and-trim fallback of `mi_os_prim_alloc_aligned`, as regenerated from src/os.c** (taken when the first attempt `p1`
+    comes back unaligned — e.g. after the address-hinted `mmap` was refused — on systems that can unmap parts of a mapping; the OS
+    allocation primitive is an arbitrary function): of the over-allocation `[q, q + size + alignment)` it gives back the front
+    `[q, P)` and the rest after `P + size`, returns `P` — the first multiple of the alignment at or after `q` — and records *that* as the
+    base: the recorded base and size describe exactly the memory that is still mapped, which is what `_mi_os_free_ex` later unmaps
+    (`free_releases_recorded_range`); recording `q` instead (seed C07-4) unmaps the front a second time -/
+theorem generated_os_alloc_aligned_fallback_keeps_what_it_records (ps : Nat) (alloc : Nat → Nat → Nat → Nat → Nat → Nat → Nat)
+    (hpf size alignment commit al il iz base p1 q P : Nat)
+    (hA : alignment ≥ ps) (hpow : alignment &&& (((alignment + 18446744073709551616 - 1)) % 18446744073709551616) = 0) (ha0 : 0 < alignment)
+    (ha63 : alignment < 2^63)
+    (hsz : GenO._mi_align_up size ps = size)
+    (hfit : size + alignment < 2^64 - 1)
+    (hp1e : alloc size alignment commit (if ¬ (commit ≠ 0) then (if 0 ≠ 0 then 1 else 0) else al) il iz = p1)
+    (hp1 : p1 ≠ 0) (hun : p1 % alignment ≠ 0)
+    (hpart : hpf ≠ 0)
+    (hqe : alloc (size + alignment) 1 commit (if 0 ≠ 0 then 1 else 0) il iz = q)
+    (hq : q ≠ 0) (hqfit : q + (size + alignment) < 2^64)
+    (hP : P = (q + alignment - 1) / alignment * alignment) :
+    GenO.mi_os_prim_alloc_aligned ps alloc hpf size alignment commit al il iz base =
+      (P, P, [("mi_os_prim_free", [p1, size, (if commit ≠ 0 then size else 0)])]
+              ++ (if P - q > 0 then [("mi_os_prim_free", [q, P - q, (if commit ≠ 0 then P - q else 0)])] else [])
+              ++ (if size + alignment - (P - q) - size > 0 then
+                    [("mi_os_prim_free", [P + size, size + alignment - (P - q) - size, (if commit ≠ 0 then size + alignment - (P - q) - size else 0)])] else []))
+    ∧ q ≤ P ∧ P < q + alignment ∧ P % alignment = 0 := by
+  have e63 : (2:Nat)^63 = 9223372036854775808 := by decide
+  have e64 : (2:Nat)^64 = 18446744073709551616 := by decide
+  rw [e63] at ha63
+  rw [e64] at hfit hqfit
+  exact OsAlignL.fallback_exact ps alloc hpf size alignment commit al il iz base p1 q P hA hpow ha0 ha63 hsz (by omega) hp1e hp1 hun hpart hqe hq hqfit hP
+
+-- non-vacuity: a 64 KiB request aligned to 32 MiB whose first attempt and over-allocation both come back 10 MiB past a 32 MiB boundary:
+-- 22 MiB of front and 10 MiB of rest are given back, the aligned 64 KiB in between are kept and recorded
+example : GenO.mi_os_prim_alloc_aligned 4096 (fun sz al _ _ _ _ => if al = 1 then 139706807357440 else 139638087880704) 1 65536 33554432 1 0 0 0 0 =
+    (139706830422016, 139706830422016,
+     [("mi_os_prim_free", [139638087880704, 65536, 65536]), ("mi_os_prim_free", [139706807357440, 23064576, 23064576]),
+      ("mi_os_prim_free", [139706830487552, 10489856, 10489856])]) := by decide
 
 end C11
